@@ -15,6 +15,7 @@ import (
 	"strconv"
 	"strings"
 	"sync"
+	"sync/atomic"
 	"testing"
 	"testing/synctest"
 	"time"
@@ -66,11 +67,42 @@ func runCommand(now int64, c cmd.Command) (err error, panicMsg string) {
 	wd, _ := os.Getwd()
 	prefillTextOut(c)
 	c = throughFlags(c)
+	usedBefore(now, c)
 	panicMsg = atClock(now, func() { err = c.Execute() })
 	if wd != "" {
 		os.Chdir(wd)
 	}
 	return
+}
+
+// usedBefore executes, for a share of the cases, a reading command value once at an earlier clock with its text
+// output discarded before the execution that is judged: a command value is a description of what to do, and
+// doing it once must not change what it describes (whatever the earlier run returns is of no interest here).
+var usedBeforeCount int64
+
+func usedBefore(now int64, c cmd.Command) {
+	switch c.(type) {
+	case *cmd.ViewCommand, *cmd.ViewRawCommand, *cmd.SumCommand, *cmd.DiffCommand, *cmd.SumDiffCommand:
+	default:
+		return
+	}
+	salt := caseSalt()
+	if salt%5 != 3 {
+		return
+	}
+	earlier := now - 1 - int64(salt/5%5000)
+	if earlier <= 0 {
+		return
+	}
+	f := reflect.ValueOf(c).Elem().FieldByName("TextOut")
+	if !f.IsValid() || f.Kind() != reflect.String {
+		return
+	}
+	saved := f.String()
+	f.SetString("")
+	atClock(earlier, func() { c.Execute() })
+	f.SetString(saved)
+	atomic.AddInt64(&usedBeforeCount, 1)
 }
 
 // ---------------------------------------------------------------------------------------------
@@ -388,6 +420,10 @@ func prefillTextOut(c cmd.Command) {
 // ---------------------------------------------------------------------------------------------
 // one in-process whispertool server per test process (it registers on http.DefaultServeMux)
 
+// serverRelativeBase (set before the first startServer): the server's base directory is given relative to the
+// working directory, and the process never changes directory afterwards.
+var serverRelativeBase bool
+
 var (
 	serverOnce sync.Once
 	serverRoot string
@@ -398,7 +434,9 @@ var (
 // startServer starts `whispertool server` over a per-process root directory, outside any bubble.
 func startServer() (root, url string, err error) {
 	serverOnce.Do(func() {
-		serverRoot, serverErr = os.MkdirTemp(scratchBase(), "verif-served-")
+		// (a colon in the directory's name: spelled relative to the working directory such a base still is a
+		// directory, not a URL)
+		serverRoot, serverErr = os.MkdirTemp(scratchBase(), "verif-served:2026-")
 		if serverErr != nil {
 			return
 		}
@@ -409,8 +447,18 @@ func startServer() (root, url string, err error) {
 		}
 		addr := ln.Addr().String()
 		ln.Close()
+		baseDir := serverRoot
+		if serverRelativeBase {
+			// as `whispertool server -base data` started in the parent directory
+			if err := os.Chdir(filepath.Dir(serverRoot)); err != nil {
+				serverErr = err
+				return
+			}
+			baseDir = filepath.Base(serverRoot)
+			noChdir = true
+		}
 		go func() {
-			c := &cmd.ServerCommand{Addr: addr, BaseDir: serverRoot}
+			c := &cmd.ServerCommand{Addr: addr, BaseDir: baseDir}
 			serverErr = c.Execute()
 		}()
 		serverURL = "http://" + addr
